@@ -101,6 +101,7 @@ class Engine(ExprMixin, CallMixin):
         self._seqset = {}
         self.heavy_ids = set()
         self.qscope = []
+        self.fstring_model = None
 
     # ------------------------------------------------------------------ obligations
     def emit(self, st, goal, kind, node, label=""):
@@ -842,6 +843,8 @@ class Engine(ExprMixin, CallMixin):
                 step = sv.as_long()
             lo, hi = (z3.IntVal(0), args[0]) if len(args) == 1 else (args[0], args[1])
             mode = ("range", lo, hi, step)
+        elif isinstance(it, (ast.Tuple, ast.List)) and len(it.elts) <= 16:
+            mode = ("literal", list(it.elts))
         else:
             inner = it
             wrap = None
@@ -879,6 +882,25 @@ class Engine(ExprMixin, CallMixin):
                     else:
                         raise Unsupported(f"for over {v.ty}")
         outs = self.drain_raises([])
+        if mode[0] == "literal":
+            # iteration over a literal tuple/list: unrolled exactly, element by element
+            live = [st]
+            for elt in mode[1]:
+                nxt = []
+                for s_ in live:
+                    s2 = s_.copy()
+                    v = self.ev(elt, s2)
+                    self.assign(stmt.target, v, s2, stmt)
+                    for o in self.exec_block(stmt.body, s2):
+                        if o.kind in ("normal", "continue"):
+                            nxt.append(o.st)
+                        elif o.kind == "break":
+                            outs.append(Outcome("normal", o.st))
+                        else:
+                            outs.append(o)
+                live = nxt
+            outs.extend(Outcome("normal", s_) for s_ in live)
+            return outs
         if spec.get("seq") and mode[0] in ("seq", "enum", "set"):
             st.env[spec["seq"]] = mode[1]  # ghost name for the iterated value
         if self.unroll:
